@@ -208,6 +208,31 @@ fn reduce_cmd(args: &[String]) -> i32 {
                 }
                 false
             }
+            "hang" => {
+                // compile in a child process with a time limit (std compile ~3 s + the program)
+                let f = work_dir("reduce").join("hang_candidate.sw");
+                let _ = std::fs::write(&f, &src);
+                let limit: u64 = frag.parse().unwrap_or(25);
+                let mut child = match std::process::Command::new(std::env::current_exe().unwrap()).arg("compile-one").arg("release").arg(&f).stdout(std::process::Stdio::null()).stderr(std::process::Stdio::null()).spawn() {
+                    Ok(c) => c,
+                    Err(_) => return false,
+                };
+                let t0 = std::time::Instant::now();
+                loop {
+                    match child.try_wait() {
+                        Ok(Some(_)) => return false,
+                        Ok(None) => {
+                            if t0.elapsed().as_secs() > limit {
+                                let _ = child.kill();
+                                let _ = child.wait();
+                                return true;
+                            }
+                            std::thread::sleep(std::time::Duration::from_millis(100));
+                        }
+                        Err(_) => return false,
+                    }
+                }
+            }
             "mismatch" => {
                 run_case(&mut am, &c, &mut res, false);
                 res.violations.iter().any(|v| v.signature != OOB_SIG)
@@ -231,6 +256,18 @@ fn reduce_cmd(args: &[String]) -> i32 {
 fn subcommand(args: &[String]) -> Option<i32> {
     if args.first().map(|s| s.as_str()) == Some("reduce") {
         return Some(reduce_cmd(args));
+    }
+    if args.first().map(|s| s.as_str()) == Some("compile-one") {
+        // `swverif compile-one <debug|release> <file.sw>`: compile one script (child of the hang reducer)
+        let profile = if args[1] == "release" { Profile::Release } else { Profile::Debug };
+        let src = std::fs::read_to_string(&args[2]).expect("read source");
+        let work = work_dir("compile_one").join(format!("{}", std::process::id()));
+        clean_dir(&work);
+        let mut am = Amortised::new(&work);
+        let r = am.compile("gencase", &src, profile);
+        println!("{}", if r.is_ok() { "OK" } else { "ERR" });
+        let _ = std::fs::remove_dir_all(&work);
+        return Some(0);
     }
     if args.first().map(|s| s.as_str()) != Some("probe") {
         return None;
